@@ -86,4 +86,16 @@ def errorsAbs (T : Table) : Nat → Nat → List Kind → List Nat
       let s' := match T.row? s with | some row => row.errTarget | none => s
       i :: errorsAbs T s' (i + 1) ks
 
+/-- collecting mode: the state in which each token is read, and the index of the branch taken
+    (`none` = error tail) — used for coverage measurement and to aim searches. -/
+def traceAbs (T : Table) : Nat → List Kind → List (Nat × Option Nat)
+  | _, [] => []
+  | s, k :: ks =>
+    match T.row? s with
+    | none => [(s, none)]
+    | some row =>
+      match pickBranch T k ks row.branches with
+      | some b => (s, row.branches.findIdx? (· == b)) :: traceAbs T b.target ks
+      | none => (s, none) :: traceAbs T row.errTarget ks
+
 end GV
